@@ -56,18 +56,39 @@ type bufLike interface {
 	VerifState() (int, bool, int, int)
 }
 
-func commonOp(b bufLike, o bop) (res string, ok bool) {
+// held: a string handed out by an accessor, and what it read as when it was handed out.
+type held struct {
+	s    string
+	then string
+}
+
+// heldIntact: "" if every string handed out earlier still reads as it did (C13: a string
+// obtained earlier is never modified by later writes), else a description.
+func heldIntact(h []held) string {
+	for i, x := range h {
+		if hx([]byte(x.s)) != x.then {
+			return fmt.Sprintf(" MUTATED:result#%d read %s when returned, reads %s now", i, x.then, hx([]byte(x.s)))
+		}
+	}
+	return ""
+}
+
+func commonOp(b bufLike, o bop, h *[]held) (res string, ok bool) {
+	keep := func(s string) string {
+		*h = append(*h, held{s, hx([]byte(s))})
+		return s
+	}
 	switch o.tag {
 	case "reset":
 		b.Reset()
 	case "take":
-		res = "=" + hx([]byte(b.TakeRedactableString()))
+		res = "=" + hx([]byte(keep(string(b.TakeRedactableString()))))
 	case "len":
 		res = fmt.Sprintf("=%d", b.Len())
 	case "str":
-		res = "=" + hx([]byte(b.String()))
+		res = "=" + hx([]byte(keep(b.String())))
 	case "rs":
-		res = "=" + hx([]byte(b.RedactableString()))
+		res = "=" + hx([]byte(keep(string(b.RedactableString()))))
 	case "mode":
 		res = fmt.Sprintf("=%d", int(b.GetMode()))
 	default:
@@ -78,6 +99,7 @@ func commonOp(b bufLike, o bop) (res string, ok bool) {
 
 func execBuf(ops []bop) (string, []byte) {
 	var b redact.ManualBuffer
+	var hs []held
 	st := func() (int, bool, int, int) {
 		vu, mo, l, _ := b.VerifState()
 		return vu, mo, l, int(b.GetMode())
@@ -101,7 +123,7 @@ func execBuf(ops []bop) (string, []byte) {
 		case "g":
 			b.Grow(o.n)
 		default:
-			r, ok := commonOp(&b, o)
+			r, ok := commonOp(&b, o, &hs)
 			if !ok {
 				panic("execBuf: bad op " + o.tag)
 			}
@@ -110,7 +132,7 @@ func execBuf(ops []bop) (string, []byte) {
 		out = append(out, stStr(st)+res)
 	}
 	fin := []byte(b.RedactableString())
-	out = append(out, "out:"+hx(fin))
+	out = append(out, "out:"+hx(fin)+heldIntact(hs))
 	return strings.Join(out, " "), fin
 }
 
@@ -163,6 +185,7 @@ func writerOp(w redact.SafeWriter, o bop) bool {
 
 func execBld(ops []bop) (string, []byte) {
 	var b redact.StringBuilder
+	var hs []held
 	st := func() (int, bool, int, int) {
 		vu, mo, l, _ := b.VerifState()
 		return vu, mo, l, int(b.GetMode())
@@ -171,7 +194,7 @@ func execBld(ops []bop) (string, []byte) {
 	for _, o := range ops {
 		res := ""
 		if !writerOp(&b, o) {
-			r, ok := commonOp(&b, o)
+			r, ok := commonOp(&b, o, &hs)
 			if !ok {
 				panic("execBld: bad op " + o.tag)
 			}
@@ -180,7 +203,7 @@ func execBld(ops []bop) (string, []byte) {
 		out = append(out, stStr(st)+res)
 	}
 	fin := []byte(b.RedactableString())
-	out = append(out, "out:"+hx(fin))
+	out = append(out, "out:"+hx(fin)+heldIntact(hs))
 	return strings.Join(out, " "), fin
 }
 
